@@ -624,19 +624,22 @@ static int mps_read_col_line (
 	more = (EGLPNUM_TYPENAME_ILLmps_next_field (state) == 0);
 	if (!more)
 	{
-		return EGLPNUM_TYPENAME_ILLmps_error (state, "Missing fields in COLUMNS record.\n");
+		rval = EGLPNUM_TYPENAME_ILLmps_error (state, "Missing fields in COLUMNS record.\n");
+		goto CLEANUP;
 	}
 	for (more = 1; more; more = (EGLPNUM_TYPENAME_ILLmps_next_field (state) == 0))
 	{
 		hit = ILLsymboltab_lookup (&lp->rowtab, state->field, &rowind);
 		if (hit)
 		{
-			return EGLPNUM_TYPENAME_ILLmps_error (state, "\"%s\" is not a row name.\n", state->field);
+			rval = EGLPNUM_TYPENAME_ILLmps_error (state, "\"%s\" is not a row name.\n", state->field);
+			goto CLEANUP;
 		}
 		if (EGLPNUM_TYPENAME_ILLmps_next_coef (state, &ncoef) != 0)
 		{
-			return EGLPNUM_TYPENAME_ILLmps_error (state,
+			rval = EGLPNUM_TYPENAME_ILLmps_error (state,
 													 "Missing/Bad coefficient in COLUMNS record.\n");
+			goto CLEANUP;
 		}
 		rval = EGLPNUM_TYPENAME_ILLraw_add_col_coef (lp, colind, rowind, ncoef);
 	}
@@ -714,7 +717,7 @@ static int add_rhs (
 	EGLPNUM_TYPENAME_ILLread_mps_state * state,
 	EGLPNUM_TYPENAME_rawlpdata * lp)
 {
-	int rowind, more_fields, skip;
+	int rowind, more_fields, skip, rval = 0;
 	const char *rhsname;
 	EGLPNUM_TYPE rhs;
 
@@ -737,24 +740,28 @@ static int add_rhs (
 			/* field is non blank rhs name; advance to row name  */
 			if (EGLPNUM_TYPENAME_ILLmps_next_field (state))
 			{
-				return EGLPNUM_TYPENAME_ILLmps_error (state, "Missing row name in RHS record.\n");
+				rval = EGLPNUM_TYPENAME_ILLmps_error (state, "Missing row name in RHS record.\n");
+				goto CLEANUP;
 			}
 		}
 		for (more_fields = 1; more_fields; more_fields = !EGLPNUM_TYPENAME_ILLmps_next_field (state))
 		{
 			if (ILLsymboltab_lookup (&lp->rowtab, state->field, &rowind))
 			{
-				return EGLPNUM_TYPENAME_ILLmps_error (state, "\"%s\" is not a row name.\n",
+				rval = EGLPNUM_TYPENAME_ILLmps_error (state, "\"%s\" is not a row name.\n",
 														 state->field);
+				goto CLEANUP;
 			}
 			if (EGLPNUM_TYPENAME_ILLmps_next_coef (state, &rhs))
 			{
-				return EGLPNUM_TYPENAME_ILLmps_error (state, "Missing/Bad coefficient in RHS record.\n");
+				rval = EGLPNUM_TYPENAME_ILLmps_error (state, "Missing/Bad coefficient in RHS record.\n");
+				goto CLEANUP;
 			}
 			if (lp->rhsind[rowind])
 			{
-				return EGLPNUM_TYPENAME_ILLmps_error (state, "Two rhs values for row \"%s\".\n",
+				rval = EGLPNUM_TYPENAME_ILLmps_error (state, "Two rhs values for row \"%s\".\n",
 														 state->field);
+				goto CLEANUP;
 			}
 			else
 			{
@@ -772,8 +779,9 @@ static int add_rhs (
 			}
 		}
 	}
+CLEANUP:
 	EGLPNUM_TYPENAME_EGlpNumClearVar (rhs);
-	return 0;
+	return rval;
 }
 
 static int add_bounds (
@@ -792,24 +800,28 @@ static int add_bounds (
 
 	if (ILLutil_index (mps_bound_name, state->field) < 0)
 	{
-		return EGLPNUM_TYPENAME_ILLmps_error (state, "\"%s\" is not a BOUNDS type.\n", state->field);
+		rval = EGLPNUM_TYPENAME_ILLmps_error (state, "\"%s\" is not a BOUNDS type.\n", state->field);
+		goto CLEANUP;
 	}
 	strcpy (bndtype, state->field);
 
 	if (EGLPNUM_TYPENAME_ILLmps_next_field (state) != 0)
 	{
-		return EGLPNUM_TYPENAME_ILLmps_error (state,
+		rval = EGLPNUM_TYPENAME_ILLmps_error (state,
 												 "No bounds/column identifier in BOUNDS record.\n");
+		goto CLEANUP;
 	}
 
 	bounds_name = EGLPNUM_TYPENAME_ILLmps_possibly_blank_name (state->field, state, &lp->coltab);
 	if (bounds_name == NULL)
 	{
-		return 1;
+		rval = 1;
+		goto CLEANUP;
 	}
 	if (EGLPNUM_TYPENAME_ILLraw_set_bounds_name (lp, bounds_name, &skip))
 	{
-		return 1;
+		rval = 1;
+		goto CLEANUP;
 	}
 	if (skip)
 	{
@@ -822,13 +834,15 @@ static int add_bounds (
 			/* non empty bounds_name ==> advance to col name field */
 			if (EGLPNUM_TYPENAME_ILLmps_next_field (state))
 			{
-				return EGLPNUM_TYPENAME_ILLmps_error (state, "Missing column field in BOUNDS record.\n");
+				rval = EGLPNUM_TYPENAME_ILLmps_error (state, "Missing column field in BOUNDS record.\n");
+				goto CLEANUP;
 			}
 		}
 		if (ILLsymboltab_lookup (&lp->coltab, state->field, &colind))
 		{
-			return EGLPNUM_TYPENAME_ILLmps_error (state, "\"%s\" is not a column name.\n",
+			rval = EGLPNUM_TYPENAME_ILLmps_error (state, "\"%s\" is not a column name.\n",
 													 state->field);
+			goto CLEANUP;
 		}
 		EGLPNUM_TYPENAME_EGlpNumZero (bnd);
 		if (strcmp (bndtype, "FR") && strcmp (bndtype, "BV") &&
@@ -837,8 +851,9 @@ static int add_bounds (
 			/* neither "FR", "BV", "MI" nor "PL" ==> there should be a bound */
 			if (EGLPNUM_TYPENAME_ILLmps_next_bound (state, &bnd))
 			{
-				return EGLPNUM_TYPENAME_ILLmps_error (state,
+				rval = EGLPNUM_TYPENAME_ILLmps_error (state,
 														 "Missing/Bad bound field in BOUNDS record.\n");
+				goto CLEANUP;
 			}
 		}
 		mps_set_bound (lp, state, colind, bndtype, bnd);
@@ -920,7 +935,7 @@ static int add_ranges (
 	EGLPNUM_TYPENAME_rawlpdata * lp)
 {
 	const char *rangesname;
-	int skip, more_fields, rowind;
+	int skip, more_fields, rowind, rval = 0;
 	EGLPNUM_TYPE ntmp;
 
 	EGLPNUM_TYPENAME_EGlpNumInitVar (ntmp);
@@ -928,7 +943,8 @@ static int add_ranges (
 	rangesname = EGLPNUM_TYPENAME_ILLmps_possibly_blank_name (state->field, state, &lp->rowtab);
 	if (EGLPNUM_TYPENAME_ILLraw_set_ranges_name (lp, rangesname, &skip))
 	{
-		return EGLPNUM_TYPENAME_ILLmps_error (state, "Could not add range.\n");
+		rval = EGLPNUM_TYPENAME_ILLmps_error (state, "Could not add range.\n");
+		goto CLEANUP;
 	}
 	if (skip)
 	{
@@ -941,20 +957,23 @@ static int add_ranges (
 			/* field is non blank ranges name; advance to row name */
 			if (EGLPNUM_TYPENAME_ILLmps_next_field (state))
 			{
-				return EGLPNUM_TYPENAME_ILLmps_error (state, "Missing row name in RANGES record.");
+				rval = EGLPNUM_TYPENAME_ILLmps_error (state, "Missing row name in RANGES record.");
+				goto CLEANUP;
 			}
 		}
 		for (more_fields = 1; more_fields; more_fields = !EGLPNUM_TYPENAME_ILLmps_next_field (state))
 		{
 			if (ILLsymboltab_lookup (&lp->rowtab, state->field, &rowind))
 			{
-				return EGLPNUM_TYPENAME_ILLmps_error (state, "\"%s\" is not a row name.\n",
+				rval = EGLPNUM_TYPENAME_ILLmps_error (state, "\"%s\" is not a row name.\n",
 														 state->field);
+				goto CLEANUP;
 			}
 			if (EGLPNUM_TYPENAME_ILLmps_next_coef (state, &ntmp))
 			{
-				return EGLPNUM_TYPENAME_ILLmps_error (state,
+				rval = EGLPNUM_TYPENAME_ILLmps_error (state,
 														 "Missing/Bad coefficient in RANGES record.\n");
+				goto CLEANUP;
 			}
 			if (lp->rangesind[rowind])
 			{
@@ -966,7 +985,10 @@ static int add_ranges (
 				if (lp->rowsense[rowind] != 'N')
 				{
 					if (EGLPNUM_TYPENAME_ILLraw_add_ranges_coef (lp, rowind, ntmp))
-						return 1;
+					{
+						rval = 1;
+						goto CLEANUP;
+					}
 				}
 				else
 				{
@@ -976,8 +998,9 @@ static int add_ranges (
 			}
 		}
 	}
+CLEANUP:
 	EGLPNUM_TYPENAME_EGlpNumClearVar (ntmp);
-	return 0;
+	return rval;
 }
 
 
@@ -1037,6 +1060,7 @@ static int mps_fill_in (
 		hit = ILLsymboltab_lookup (&lp->rowtab, lp->refrow, &lp->refrowind);
 		if (hit)
 		{
+			EGLPNUM_TYPENAME_EGlpNumClearVar (weight);
 			return EGLPNUM_TYPENAME_ILLdata_error (lp->error_collector,
 														"REFROW \"%s\" is not a row name.\n", lp->refrow);
 		}
